@@ -77,6 +77,10 @@ func checkLogFaithful(dir, logText string) (violations []string, freshDst bool) 
 			ok = src == dst && sb && sa
 		case 'R':
 			ok = src != dst && sb && !sa && da && !db
+		case 'C':
+			// copy entries are outside log_faithful (A/D/M/T/R only): reported as such, not as a broken hypothesis
+			violations = append(violations, "copy entry (outside log_faithful): "+line)
+			ok = true
 		default:
 			ok = false
 		}
